@@ -4,7 +4,7 @@ import vermouth.forcefield as _vff
 
 
 def charmm_case(rng, ff):
-    seq = [rng.choice(['GLY', 'ALA', 'SER', 'ASP', 'GLU', 'VAL']) for _ in range(rng.randint(1, 3))]
+    seq = [rng.choice(['GLY', 'ALA', 'SER', 'ASP', 'GLU', 'VAL', 'HIS']) for _ in range(rng.randint(1, 3))]
     mol = Molecule(force_field=ff)
     key = 0
     idx = []
@@ -56,6 +56,9 @@ def charmm_case(rng, ff):
             attach(r, 'OD2', [('H', None)], 'ASP-HD2')
         if resname == 'GLU' and rng.random() < 0.5:
             attach(r, rng.choice(['OE1', 'OE2']), [('H', None)], None if False else 'GLU-HE')
+        if resname == 'HIS' and rng.random() < 0.7:
+            # the template has HE2 on NE2; one more H on ND1 is HIS-HD (never HIS-HP, whose HE2 is an added atom)
+            attach(r, 'ND1', [('H', None)], 'HIS-HD')
         if resname in ('ALA', 'SER', 'VAL') and rng.random() < 0.25:
             attach(r, 'CB', [('S', None)] if rng.random() < 0.5 else [('S', None), ('O', 0)], None)
     return seq, mol, expect, exact, unknown
